@@ -1,6 +1,7 @@
 package main
 
 import (
+	"sort"
 	"fmt"
 	"go/token"
 	"go/types"
@@ -328,6 +329,29 @@ func (fr *Frame) havocCall(name string, resT types.Type, args []Value, st *State
 	for _, a := range args {
 		u.havocReachable(st, a, 0)
 	}
+	// an unknown callee may change what the ghost abstractions (hfn: value of a big integer, data of a buffer,
+	// point of a key) stand for, if it receives any pointer, slice, interface or closure at all
+	touches := false
+	for _, a := range args {
+		switch a.(type) {
+		case PtrV, SliceV, IfaceV, FuncV:
+			touches = true
+		}
+	}
+	if touches {
+		var hnames []string
+		for hn := range u.eng.specs.HFns {
+			hnames = append(hnames, hn)
+		}
+		sort.Strings(hnames)
+		for _, hn := range hnames {
+			h := u.eng.specs.HFns[hn]
+			key := "G|" + hn
+			if _, live := st.heap[key]; live {
+				st.heap[key] = u.c.Fresh("hv_G_"+hn, ArrSort(SInt, h.Ret))
+			}
+		}
+	}
 	na := u.c.Fresh("alloc", SInt)
 	u.c.Assume(Ge(na, st.alloc))
 	st.alloc = na
@@ -408,6 +432,7 @@ func (fr *Frame) builtin(b *ssa.Builtin, cc *ssa.CallCommon, args []Value, st *S
 		return fr.copyOp(cc, args, st, pc)
 	case "delete":
 		mt := cc.Args[0].Type().Underlying().(*types.Map)
+		u.frameCheckMap(fr, pc, mt, args[0].(Scalar).T, pos)
 		u.mapDelete(st, mt, args[0].(Scalar).T, args[1])
 		return TupleV{}
 	case "print", "println":
